@@ -17,4 +17,9 @@ def obligations(tier):
     obs.append(Ob("C06.norm/p_id", "c06", "c_norm", {"VF_MAXB": 2 if tier == "quick" else 4}, t, FN_ID,
                   "identifier = one of 4 delimiter styles (none, \"..\", `..`, [..]) around a symbolic body of 1..2 [thorough 4] characters free of delimiter characters; normalize_names symbolic"))
     obs.append(Ob("C06.copy/names", "c06", "c_copy", {}, t, FN_COPY, "three opaque symbolic strings of length <= 3; 6 action forms (symbolic)", api=False))
+    for ns, nst in ((2, '"n",n,[n]'), (3, "x,`x`,X")):
+        for i in (9, 17):
+            obs.append(Ob(f"C06.flow/names={nst}/item1={i}", "drv", "c_items", {"VF_I1": i, "VF_NAMES": ns}, 300 if tier == "quick" else 900,
+                          ["real LALR driver + actions + BaseData post-processing (harness/drv.py c_items)"],
+                          f"delimited / differently cased column names {nst} in column definitions, key lists, constraints and foreign keys are reported verbatim and never confused with each other"))
     return obs
